@@ -202,7 +202,7 @@ class C20(Check):
                     elif label == "Dict":
                         check("Dict", list(r.keys()), [tuple(r.values())])
                     else:
-                        if not same(r, base_rows[0][0]):
+                        if not same(oracle.norm_cell(r), base_rows[0][0]):
                             out.fail("target", f"{kind}:Scalar:values", f"{kind}: Scalar {r!r} vs {base_rows[0][0]!r}")
                         compared += 1
                 except TypeError:
@@ -276,6 +276,8 @@ def _py(v):
 
     import pandas as pd
 
+    if isinstance(v, float) and math.isnan(v):
+        return v  # NaN is a value (0/0), not a null
     if v is None or (not isinstance(v, (str, bytes, list)) and _isna(v)):
         return None
     if isinstance(v, pd.Timestamp):
